@@ -325,6 +325,11 @@ class Analysis:
             for n in _walk_fn(fn.node):
                 if isinstance(n, ast.Attribute) and isinstance(n.ctx, (ast.Store, ast.Del)) and isinstance(n.value, ast.Name) and n.value.id in ("self", "cls"):
                     probs.append((n.lineno, f"state kept on the (shared) object across calls: {ast.unparse(n)} written outside __init__"))
+        # the manager, the objective and the output type are the caller's objects (often shared singletons): an algorithm stores nothing into them
+        for n in _walk_fn(fn.node):
+            if isinstance(n, ast.Attribute) and isinstance(n.ctx, (ast.Store, ast.Del)) and isinstance(n.value, ast.Name) and \
+                    n.value.id in fn.params and n.value.id in ("binner", "objective", "outputtype", "algorithm"):
+                probs.append((n.lineno, f"state stored into the caller's {n.value.id} object: {ast.unparse(n)}"))
         for d in fn.node.decorator_list:
             dn = ast.unparse(d)
             if any(m in dn for m in MEMO_DECORATORS):
